@@ -10,10 +10,13 @@
 //!    (built to be well-typed), except files in a `fail_check` directory or whose name contains
 //!    `-ill-`: tag `ill`;  /repo/testsuite/fail_check is always included;
 //!  * `n` random well-typed programs from the generator (`gen_fun`, when linked in): tag `wt`;
-//!  * for every `wt` program that the real checker accepts: its single ill-typed mutations, 16+2 classes
+//!  * a directed family of well-typed programs that REUSE the name of an outer variable as a clause /
+//!    let / label binder of another type or chirality while a sibling clause (or the code after the
+//!    binder's scope) uses the OUTER variable, for every declaration order of the xtors (`shadow_family`);
+//!  * for every `wt` program that the real checker accepts: its single ill-typed mutations, 16+3 classes
 //!    (see `CLASSES`), each applied at every applicable site of the parsed AST, one at a time
-//!    (corpus programs: all sites; random programs: at most `SITES_PER_CLASS` sites per class, drawn
-//!    with the PRNG).  The tag is the class name; the name is `<file>#<class>@<site>`.
+//!    (corpus programs: all sites, at most `SITES_CORPUS` per class and program; random programs: at most
+//!    `SITES_PER_CLASS` sites per class, drawn with the PRNG; `scope-esc`: at most `SITES_ESC`).  The tag is the class name; the name is `<file>#<class>@<site>`.
 //! Mutations are edits on the parsed `fun::syntax::program::Program` (new nodes get a dummy span).
 //! A mutation can accidentally produce a well-typed program; the model side (`modelrun check`)
 //! decides that with the independent declarative checker and answers SKIP for those.
@@ -30,13 +33,21 @@ use std::collections::HashMap;
 use std::panic::AssertUnwindSafe;
 use std::rc::Rc;
 
-pub const CLASSES: [&str; 18] = [
+pub const CLASSES: [&str; 20] = [
     "arg-count", "arg-type", "unbound-var", "unbound-covar", "missing-clause", "extra-clause",
     "dup-clause", "clause-binders", "type-args", "prd-as-cns", "cns-as-prd", "dup-decl", "dup-xtor",
     "unknown-type", "unknown-xtor", "ret-type",
     // two more, for the error variants the 16 classes of the property do not reach
     "dup-param", "new-for-data",
+    // round 2: a name that IS bound somewhere in the same definition (or is a parameter of another
+    // definition) used where it is NOT in scope.  scope-leak: the binder of a SIBLING clause of an
+    // enclosing case / new (at variables, literals, goto targets, covariable arguments).  scope-esc:
+    // any other such name - a let variable outside its body, a clause binder in the scrutinee or after
+    // the case, a label outside its body, another definition's parameter (at most SITES_ESC per program)
+    "scope-leak", "scope-esc",
 ];
+const SITES_ESC: usize = 8;
+const SITES_CORPUS: usize = 40;
 const SITES_PER_CLASS: usize = 3;
 
 pub fn error_variant<E: std::fmt::Debug>(e: &E) -> String {
@@ -112,6 +123,11 @@ struct W<'a> {
     target: usize,
     count: usize,
     done: bool,
+    /// scope-leak: the names bound anywhere in the current definition (parameters, let variables,
+    /// labels, clause binders) and the parameters of the other definitions
+    cands: Vec<String>,
+    /// scope-leak: the binders of the sibling clauses of the enclosing case / new terms
+    sibs: Vec<String>,
 }
 
 type Scope = Vec<(String, Option<Chirality>)>;
@@ -133,6 +149,20 @@ impl<'a> W<'a> {
         // a name whose innermost binding has the given chirality
         for (n, _) in scope.iter().rev() {
             if let Some(Some(c)) = Self::lookup(scope, n) { if *c == chi { return Some(n.clone()); } }
+        }
+        None
+    }
+
+    /// scope-leak at a name occurrence: every candidate that is not in scope at this point is one site
+    fn leak(&mut self, scope: &Scope, lit: bool) -> Option<String> {
+        let pool: Vec<String> = if self.is("scope-leak") { self.sibs.clone() }
+            else if self.is("scope-esc") && !lit { self.cands.iter().filter(|c| !self.sibs.contains(c)).cloned().collect() }
+            else { return None; };
+        let mut seen: Vec<&String> = vec![];
+        for c in pool.iter() {
+            if seen.contains(&c) || Self::lookup(scope, c).is_some() { continue; }
+            seen.push(c);
+            if self.hit() { return Some(c.clone()); }
         }
         None
     }
@@ -166,6 +196,7 @@ impl<'a> W<'a> {
             if cns {
                 if let Term::XVar(v) = a {
                     if self.is("unbound-covar") && self.hit() { v.var = "zz_unbound_covar".to_string(); return; }
+                    if let Some(c) = self.leak(scope, false) { v.var = c; return; }
                     if self.is("prd-as-cns") {
                         if let Some(x) = Self::some_with(scope, Chirality::Prd) { if self.hit() { v.var = x; return; } }
                         if self.hit() { *a = lit0(); return; }
@@ -226,6 +257,7 @@ impl<'a> W<'a> {
                 }
             }
         }
+        let all_binders: Vec<(String, Vec<String>)> = cls.iter().map(|c| (c.xtor.clone(), c.context_names.bindings.clone())).collect();
         for c in cls.iter_mut() {
             if self.is("unknown-xtor") && self.hit() { c.xtor = if is_case { "ZzNoSuchCtor".into() } else { "zzNoSuchDtor".into() }; return; }
             if self.is("clause-binders") {
@@ -234,12 +266,18 @@ impl<'a> W<'a> {
             }
             let sig = if is_case { self.sigs.ctors.get(&c.xtor) } else { self.sigs.dtors.get(&c.xtor) };
             let n0 = scope.len();
+            let s0 = self.sibs.len();
+            if self.is("scope-leak") || self.is("scope-esc") {
+                let own = c.context_names.bindings.clone();
+                for (x, ns) in all_binders.iter() { if *x != c.xtor { for n in ns { if !own.contains(n) { self.sibs.push(n.clone()); } } } }
+            }
             for (i, n) in c.context_names.bindings.iter().enumerate() {
                 let chi = sig.and_then(|s| if s.bindings.len() == c.context_names.bindings.len() { s.bindings.get(i).map(|b| b.chi.clone()) } else { None });
                 scope.push((n.clone(), chi));
             }
             self.term(&mut c.body, scope);
             scope.truncate(n0);
+            self.sibs.truncate(s0);
             if self.done { return; }
         }
     }
@@ -251,12 +289,15 @@ impl<'a> W<'a> {
         match t {
             Term::XVar(v) => {
                 if self.is("unbound-var") && self.hit() { v.var = "zz_unbound_var".to_string(); return; }
+                if let Some(c) = self.leak(scope, false) { v.var = c; return; }
                 if self.is("cns-as-prd") {
                     if let Some(x) = Self::some_with(scope, Chirality::Cns) { if self.hit() { v.var = x; return; } }
                 }
             }
             Term::Lit(_) => {
                 if self.is("unbound-var") && self.hit() { *t = XVar::mk("zz_unbound_var").into(); return; }
+                // a literal in a clause body: only the binders of the sibling clauses
+                if let Some(c) = self.leak(scope, true) { *t = XVar::mk(&c).into(); return; }
                 if self.is("cns-as-prd") {
                     if let Some(x) = Self::some_with(scope, Chirality::Cns) { if self.hit() { *t = XVar::mk(&x).into(); return; } }
                 }
@@ -305,6 +346,7 @@ impl<'a> W<'a> {
             }
             Term::Goto(g) => {
                 if self.is("unbound-covar") && self.hit() { g.target = "zz_unbound_covar".to_string(); return; }
+                if let Some(c) = self.leak(scope, false) { g.target = c; return; }
                 if self.is("prd-as-cns") {
                     if let Some(x) = Self::some_with(scope, Chirality::Prd) { if self.hit() { g.target = x; return; } }
                 }
@@ -322,6 +364,9 @@ impl<'a> W<'a> {
             for i in 0..p.declarations.len() { if self.hit() { let d = p.declarations[i].clone(); p.declarations.push(d); return; } }
             return;
         }
+        let params: Vec<(String, Vec<String>)> = p.declarations.iter().filter_map(|d| match d {
+            Declaration::Def(d) => Some((d.name.clone(), d.context.bindings.iter().map(|b| b.var.clone()).collect())),
+            _ => None }).collect();
         for d in p.declarations.iter_mut() {
             if self.done { return; }
             match d {
@@ -333,7 +378,7 @@ impl<'a> W<'a> {
                     if self.is("dup-xtor") { for i in 0..dtors.len() { if self.hit() { let c: DtorSig = dtors[i].clone(); dtors.push(c); return; } } }
                     for c in dtors.iter_mut() { self.ctx(&mut c.args); if !self.done { self.ty(&mut c.cont_ty); } }
                 }
-                Declaration::Def(Def { context, ret_ty, body, .. }) => {
+                Declaration::Def(Def { name, context, ret_ty, body, .. }) => {
                     if self.is("ret-type") {
                         match ret_ty {
                             Ty::I64 { .. } => { if let Some(n) = &self.sigs.mono_type { if self.hit() { *ret_ty = Ty::mk_decl(n, TypeArgs::mk(vec![])); return; } } }
@@ -348,6 +393,14 @@ impl<'a> W<'a> {
                     self.ty(ret_ty);
                     if self.done { return; }
                     let mut scope: Scope = context.bindings.iter().map(|b| (b.var.clone(), Some(b.chi.clone()))).collect();
+                    if self.is("scope-leak") || self.is("scope-esc") {
+                        let mut c: Vec<String> = vec![];
+                        binders_of(body, &mut c);
+                        for (f, ps) in params.iter() { if *f != *name { c.extend(ps.iter().cloned()); } }
+                        c.sort(); c.dedup();
+                        self.cands = c;
+                        self.sibs.clear();
+                    }
                     self.term(body, &mut scope);
                 }
             }
@@ -355,18 +408,84 @@ impl<'a> W<'a> {
     }
 }
 
+/// the names bound anywhere inside a term: let variables, labels, clause binders
+fn binders_of(t: &Term, out: &mut Vec<String>) {
+    match t {
+        Term::XVar(_) | Term::Lit(_) => {}
+        Term::Op(o) => { binders_of(&o.fst, out); binders_of(&o.snd, out); }
+        Term::IfC(i) => { binders_of(&i.fst, out); if let Some(s) = &i.snd { binders_of(s, out); } binders_of(&i.thenc, out); binders_of(&i.elsec, out); }
+        Term::PrintI64(p) => { binders_of(&p.arg, out); binders_of(&p.next, out); }
+        Term::Let(l) => { out.push(l.variable.clone()); binders_of(&l.bound_term, out); binders_of(&l.in_term, out); }
+        Term::Call(c) => { for a in c.args.entries.iter() { binders_of(a, out); } }
+        Term::Constructor(c) => { for a in c.args.entries.iter() { binders_of(a, out); } }
+        Term::Destructor(d) => { binders_of(&d.scrutinee, out); for a in d.args.entries.iter() { binders_of(a, out); } }
+        Term::Case(c) => { binders_of(&c.scrutinee, out); for cl in c.clauses.iter() { out.extend(cl.context_names.bindings.iter().cloned()); binders_of(&cl.body, out); } }
+        Term::New(n) => { for cl in n.clauses.iter() { out.extend(cl.context_names.bindings.iter().cloned()); binders_of(&cl.body, out); } }
+        Term::Label(l) => { out.push(l.label.clone()); binders_of(&l.term, out); }
+        Term::Goto(g) => { binders_of(&g.term, out); }
+        Term::Exit(e) => { binders_of(&e.arg, out); }
+        Term::Paren(p) => { binders_of(&p.inner, out); }
+    }
+}
+
+fn permutations(n: usize) -> Vec<Vec<usize>> {
+    if n == 0 { return vec![vec![]]; }
+    let mut out = vec![];
+    for p in permutations(n - 1) { for i in 0..n { let mut q = p.clone(); q.insert(i, n - 1); out.push(q); } }
+    out
+}
+
+/// Directed family (well-typed by construction): the name `x` of an outer variable of type i64 is
+/// re-bound by ONE clause (or let, or label) at another type or chirality, and the OUTER `x` is used by
+/// the sibling clauses / after the binder's scope.  Every declaration order of the three xtors, two
+/// clause orders; data and codata; a consumer binder; a polymorphic instance; let and label.
+pub fn shadow_family() -> Vec<(String, String)> {
+    let mut out = vec![];
+    let ctors = ["K1(a: Box)", "K2", "K3(b: i64)"];
+    let ccls = ["K1(x) => 0", "K2 => x", "K3(y) => x + y"];
+    let dtors = ["m1(a: Box): i64", "m2: i64", "m3(b: i64): i64"];
+    let dcls = ["m1(x) => 0", "m2 => x", "m3(y) => x + y"];
+    let pick = |xs: &[&str], p: &[usize]| p.iter().map(|i| xs[*i]).collect::<Vec<_>>().join(", ");
+    for (k, dp) in permutations(3).iter().enumerate() {
+        for (j, cp) in [vec![0usize, 1, 2], vec![2, 1, 0]].iter().enumerate() {
+            out.push((format!("family:shadow-case:{k}:{j}"), format!(
+                "data Box {{ MkBox }}\ndata T {{ {} }}\ndef f(x: i64, t: T): i64 {{ t.case {{ {} }} }}\ndef main(): i64 {{ f(1, K2) }}\n",
+                pick(&ctors, dp), pick(&ccls, cp))));
+            out.push((format!("family:shadow-new:{k}:{j}"), format!(
+                "data Box {{ MkBox }}\ncodata O {{ {} }}\ndef g(x: i64): O {{ new {{ {} }} }}\ndef main(): i64 {{ (g(1)).m2 }}\n",
+                pick(&dtors, dp), pick(&dcls, cp))));
+        }
+    }
+    for (k, (d, c)) in [("n1(a :cns Box): i64, n2: i64", "n1(x) => 0, n2 => x"), ("n2: i64, n1(a :cns Box): i64", "n2 => x, n1(x) => 0"),
+                        ("n1(a :cns Box): i64, n2: i64", "n2 => x, n1(x) => 0"), ("n2: i64, n1(a :cns Box): i64", "n1(x) => 0, n2 => x")].iter().enumerate() {
+        out.push((format!("family:shadow-new-cns:{k}"), format!(
+            "data Box {{ MkBox }}\ncodata P {{ {d} }}\ndef p(x: i64): P {{ new {{ {c} }} }}\ndef main(): i64 {{ (p(2)).n2 }}\n")));
+    }
+    for (k, (d, c)) in [("Nil, Cons(h: A, t: List[A])", "Nil => x, Cons(x, r) => 0"), ("Cons(h: A, t: List[A]), Nil", "Nil => x, Cons(x, r) => 0"),
+                        ("Cons(h: A, t: List[A]), Nil", "Cons(x, r) => 0, Nil => x"), ("Nil, Cons(h: A, t: List[A])", "Cons(r, x) => 0, Nil => x")].iter().enumerate() {
+        out.push((format!("family:shadow-case-poly:{k}"), format!(
+            "data List[A] {{ {d} }}\ndef l(x: i64, l: List[List[i64]]): i64 {{ l.case[List[i64]] {{ {c} }} }}\ndef main(): i64 {{ l(3, Nil) }}\n")));
+    }
+    for (k, body) in ["(let x: Box = MkBox; 0) + x", "let y: i64 = (let x: Box = MkBox; 1); x + y", "(label x { 0 }) + x",
+                      "label a { (label a { 1 }) + (goto a (x)) }", "x + (let x: Box = MkBox; 0)",
+                      "if x == 0 { let x: Box = MkBox; 1 } else { x }"].iter().enumerate() {
+        out.push((format!("family:shadow-let-label:{k}"), format!("data Box {{ MkBox }}\ndef h(x: i64): i64 {{ {body} }}\ndef main(): i64 {{ h(1) }}\n")));
+    }
+    out
+}
+
 /// the `site`-th mutant of class `class`, or None when there are fewer applicable sites
 pub fn mutate(p: &Program, class: &str, site: usize) -> Option<Program> {
     let s = sigs(p);
     let mut q = p.clone();
-    let mut w = W { class, sigs: &s, target: site, count: 0, done: false };
+    let mut w = W { class, sigs: &s, target: site, count: 0, done: false, cands: vec![], sibs: vec![] };
     w.program(&mut q);
     if w.done { Some(q) } else { None }
 }
 pub fn count_sites(p: &Program, class: &str) -> usize {
     let s = sigs(p);
     let mut q = p.clone();
-    let mut w = W { class, sigs: &s, target: usize::MAX, count: 0, done: false };
+    let mut w = W { class, sigs: &s, target: usize::MAX, count: 0, done: false, cands: vec![], sibs: vec![] };
     w.program(&mut q);
     w.count
 }
@@ -384,10 +503,14 @@ fn emit_with_mutants(out: &mut dyn std::io::Write, k: &mut usize, name: &str, p:
     if !accepted { return; }
     for class in CLASSES {
         let n = count_sites(p, class);
-        let sites: Vec<usize> = if all_sites || n <= SITES_PER_CLASS { (0..n).collect() } else {
+        let family = name.starts_with("family:");
+        let every = (all_sites && class != "scope-esc") || (family && (class == "scope-leak" || class == "scope-esc"));
+        // corpus programs: every site, but at most SITES_CORPUS per class (large generated corpus files)
+        let cap = if every { SITES_CORPUS } else if class == "scope-esc" { SITES_ESC } else { SITES_PER_CLASS };
+        let sites: Vec<usize> = if n <= cap { (0..n).collect() } else {
             let mut v: Vec<usize> = (0..n).collect();
             let mut chosen = vec![];
-            for _ in 0..SITES_PER_CLASS { let i = rng.below(v.len()); chosen.push(v.remove(i)); }
+            for _ in 0..cap { let i = rng.below(v.len()); chosen.push(v.remove(i)); }
             chosen.sort();
             chosen
         };
@@ -420,6 +543,14 @@ pub fn cmd_check(seed: u64, n: usize, extra: &[String], out: &mut dyn std::io::W
         let base = f.file_name().map(|s| s.to_string_lossy().to_string()).unwrap_or_default();
         let ill = name.contains("fail_check") || base.contains("-ill-");
         if ill { emit(out, &mut k, &name, "ill", &p); } else { emit_with_mutants(out, &mut k, &name, &p, true, &mut rng); }
+    }
+    for (name, src) in shadow_family() {
+        let parsed = std::panic::catch_unwind(|| fun::parser::parse_module(&src));
+        match parsed {
+            Ok(Ok(p)) => emit_with_mutants(out, &mut k, &name, &p, false, &mut rng),
+            // a family member that does not parse is a defect of the harness: make it visible
+            _ => { writeln!(out, "(case {} ({} wt (Unparsable)) (PANIC \"family program does not parse\"))", k, sexp::quote(&name)).unwrap(); k += 1; }
+        }
     }
     for i in 0..n {
         if let Some((name, p)) = crate::cmd_check_gen::random_program(&mut rng, i) {
